@@ -91,6 +91,7 @@ def fibre(
     match_reverse=None,
     front_only=False,
     back_only=False,
+    match_swap=None,
     ta_on_ref=False,
     power_loss=0.02,
 ):
@@ -149,7 +150,7 @@ def fibre(
         Bx = np.arange(a2, a2 + n)
         T[Bx] = T[A][::-1] if rev else T[A]
         first, second = (slice(float(x[a1]), float(x[a1 + n - 1])), slice(float(x[a2]), float(x[a2 + n - 1])))
-        if rng.random() < 0.5:  # list the downstream stretch first
+        if (rng.random() < 0.5) if match_swap is None else bool(match_swap):  # list the downstream stretch first
             first, second = second, first
             A, Bx = Bx, A
         matching.append((first, second, rev))
